@@ -22,10 +22,11 @@ import (
 	"net/http/httptest"
 	"os"
 	"path/filepath"
+	"runtime"
 	"sort"
+	"strconv"
 	"strings"
 	"sync"
-	"sync/atomic"
 	"testing"
 	"time"
 
@@ -53,6 +54,7 @@ type stepIn struct {
 	Cfg    json.RawMessage `json:"cfg"`    // telemetry.UploadConfig as JSON
 	CfgVer string          `json:"cfgver"` // module version of the config
 	X      float64         `json:"x"`
+	Xs     []float64       `json:"xs"`    // the values successive draws of this run return (default: X for every draw)
 	Reply  int             `json:"reply"` // status the upload server answers with
 	Files  []fileIn        `json:"files"` // count files that appear before this run
 	Start  string          `json:"start"` // RFC3339 start time of this run
@@ -66,19 +68,67 @@ type caseIn struct {
 
 // ---- X ------------------------------------------------------------------------
 
-// xReader makes upload.computeRandom return exactly the chosen X: it reads 8
-// bytes, little-endian float64, and returns frac*2-1 of them.
-type xReader struct{ bits atomic.Uint64 }
+// xReader makes upload.computeRandom return chosen values: it reads 8 bytes,
+// little-endian float64, and returns frac*2-1 of them, so the bytes of
+// 0.5+X/2 give exactly X.  crypto/rand.Reader is process-wide while many
+// uploader runs execute in parallel, so the reader is keyed by the calling
+// goroutine: a run registers the SEQUENCE of values its draws return (the k-th
+// draw of the run gets the k-th value, cyclically).  The unchanged uploader
+// draws once per weekly report it builds; a second, independent draw for the
+// uploaded copy of a report would get a different value and become visible.
+type xSeq struct {
+	xs []float64
+	k  int
+}
+
+type xReader struct {
+	mu   sync.Mutex
+	seqs map[uint64]*xSeq
+}
+
+func goid() uint64 {
+	var b [64]byte
+	n := runtime.Stack(b[:], false)
+	f := strings.Fields(string(b[:n])) // "goroutine 123 [running]:"
+	if len(f) < 2 {
+		return 0
+	}
+	id, _ := strconv.ParseUint(f[1], 10, 64)
+	return id
+}
 
 func (r *xReader) Read(p []byte) (int, error) {
+	x := 0.5
+	id := goid()
+	r.mu.Lock()
+	if s := r.seqs[id]; s != nil && len(s.xs) > 0 {
+		x = s.xs[s.k%len(s.xs)]
+		s.k++
+	}
+	r.mu.Unlock()
 	var b [8]byte
-	binary.LittleEndian.PutUint64(b[:], r.bits.Load())
+	binary.LittleEndian.PutUint64(b[:], math.Float64bits(0.5+x/2))
 	for i := range p {
 		p[i] = b[i%8]
 	}
 	return len(p), nil
 }
-func (r *xReader) set(x float64) { r.bits.Store(math.Float64bits(0.5 + x/2)) }
+
+// register binds the calling goroutine to a sequence; the returned function
+// unbinds it and reports how many draws were made.
+func (r *xReader) register(xs []float64) func() int {
+	id := goid()
+	s := &xSeq{xs: xs}
+	r.mu.Lock()
+	r.seqs[id] = s
+	r.mu.Unlock()
+	return func() int {
+		r.mu.Lock()
+		defer r.mu.Unlock()
+		delete(r.seqs, id)
+		return s.k
+	}
+}
 
 // ---- config proxies -------------------------------------------------------------
 
@@ -206,7 +256,7 @@ func writeFiles(dir string, step int, files []fileIn) error {
 	return nil
 }
 
-func runStep(c *caseIn, k int, dir string, px *proxies, srv *server) rt.M {
+func runStep(c *caseIn, k int, dir string, px *proxies, srv *server, xr *xReader) rt.M {
 	st := c.Steps[k]
 	rec := rt.M{"kind": "step", "id": c.ID, "step": k}
 	key := fmt.Sprintf("c%d", c.ID)
@@ -227,8 +277,16 @@ func runStep(c *caseIn, k int, dir string, px *proxies, srv *server) rt.M {
 	srv.mu.Lock()
 	srv.reply[key] = st.Reply
 	srv.mu.Unlock()
+	xs := st.Xs
+	if len(xs) == 0 {
+		xs = []float64{st.X}
+	}
 	done := make(chan string, 1)
+	draws := make(chan int, 1)
 	go func() {
+		// computeRandom is called on the goroutine that calls upload.Run
+		unreg := xr.register(xs)
+		defer func() { draws <- unreg() }()
 		defer func() {
 			if r := recover(); r != nil {
 				done <- fmt.Sprintf("panic: %v", r)
@@ -244,6 +302,7 @@ func runStep(c *caseIn, k int, dir string, px *proxies, srv *server) rt.M {
 	select {
 	case msg := <-done:
 		rec["err"] = msg
+		rec["draws"] = <-draws
 	case <-time.After(120 * time.Second):
 		rec["err"] = "hang"
 	}
@@ -254,9 +313,8 @@ func runStep(c *caseIn, k int, dir string, px *proxies, srv *server) rt.M {
 	return rec
 }
 
-// TestVerifC01Run executes the cases of $VERIF_IN.  Cases whose steps use the
-// same sequence of X values run in lock-step (rand.Reader is process-wide), the
-// cases of one group in parallel.
+// TestVerifC01Run executes the cases of $VERIF_IN: the steps of a case in
+// order, the cases in parallel.
 func TestVerifC01Run(t *testing.T) {
 	defer rt.Flush()
 	var in struct {
@@ -266,8 +324,7 @@ func TestVerifC01Run(t *testing.T) {
 	if err := rt.In(&in); err != nil {
 		t.Skip(err)
 	}
-	xr := &xReader{}
-	xr.set(0.5)
+	xr := &xReader{seqs: map[uint64]*xSeq{}}
 	rand.Reader = xr
 	base := t.TempDir()
 	px := &proxies{base: filepath.Join(base, "px"), env: map[string][]string{}}
@@ -277,30 +334,18 @@ func TestVerifC01Run(t *testing.T) {
 	if par <= 0 {
 		par = 16
 	}
-
-	groups := map[string][]*caseIn{}
-	var order []string
-	for i := range in.Cases {
-		c := &in.Cases[i]
-		var sb strings.Builder
-		for _, s := range c.Steps {
-			fmt.Fprintf(&sb, "%x,", math.Float64bits(s.X))
-		}
-		k := sb.String()
-		if _, ok := groups[k]; !ok {
-			order = append(order, k)
-		}
-		groups[k] = append(groups[k], c)
-	}
-	sort.Strings(order)
-	nrun := 0
 	t0 := time.Now()
-	for _, gk := range order {
-		cs := groups[gk]
-		dirs := make([]string, len(cs))
-		for i, c := range cs {
+	var wg sync.WaitGroup
+	sem := make(chan bool, par)
+	recs := make([][]rt.M, len(in.Cases))
+	for i := range in.Cases {
+		wg.Add(1)
+		sem <- true
+		go func(i int) {
+			defer wg.Done()
+			defer func() { <-sem }()
+			c := &in.Cases[i]
 			dir := filepath.Join(base, fmt.Sprintf("t%d", c.ID))
-			dirs[i] = dir
 			os.MkdirAll(filepath.Join(dir, "local"), 0777)
 			os.MkdirAll(filepath.Join(dir, "upload"), 0777)
 			mode := c.Mode
@@ -308,34 +353,26 @@ func TestVerifC01Run(t *testing.T) {
 				mode = "on 2000-01-01"
 			}
 			os.WriteFile(filepath.Join(dir, "mode"), []byte(mode), 0666)
-		}
-		nsteps := len(cs[0].Steps)
-		for k := 0; k < nsteps; k++ {
-			xr.set(cs[0].Steps[k].X)
-			var wg sync.WaitGroup
-			sem := make(chan bool, par)
-			recs := make([]rt.M, len(cs))
-			for i := range cs {
-				wg.Add(1)
-				sem <- true
-				go func(i int) {
-					defer wg.Done()
-					defer func() { <-sem }()
-					recs[i] = runStep(cs[i], k, dirs[i], px, srv)
-					recs[i]["x"] = cs[i].Steps[k].X
-				}(i)
+			for k := range c.Steps {
+				r := runStep(c, k, dir, px, srv, xr)
+				r["x"] = c.Steps[k].X
+				recs[i] = append(recs[i], r)
+				if r["err"] == "hang" {
+					break // the goroutine leaks; do not touch its directory again
+				}
 			}
-			wg.Wait()
-			for _, r := range recs {
-				rt.Out(r)
-				nrun++
-			}
-		}
-		for _, d := range dirs {
-			os.RemoveAll(d)
+			os.RemoveAll(dir)
+		}(i)
+	}
+	wg.Wait()
+	nrun := 0
+	for _, rs := range recs {
+		for _, r := range rs {
+			rt.Out(r)
+			nrun++
 		}
 	}
-	rt.Out(rt.M{"kind": "summary", "cases": len(in.Cases), "runs": nrun, "groups": len(order), "wall_ms": time.Since(t0).Milliseconds()})
+	rt.Out(rt.M{"kind": "summary", "cases": len(in.Cases), "runs": nrun, "wall_ms": time.Since(t0).Milliseconds()})
 	// the module caches are read-only trees unless -modcacherw took effect
 	filepath.Walk(px.base, func(p string, info os.FileInfo, err error) error {
 		if err == nil && info.IsDir() {
